@@ -22,36 +22,64 @@ def rule_progress(rep):
     ) as r:
         f = rep.repo.func("parglare.parser.Parser.default_error_recovery")
         head = f.params[1]
-        loop = next((s for s in f.body if isinstance(s, ast.While)), None)
-        r.need(loop is not None, "default_error_recovery: scan loop not found")
-        t = loop.test
-        ok = (
-            isinstance(t, ast.Compare) and len(t.ops) == 1
-            and unparse(t.left) == f"{head}.position" and unparse(t.comparators[0]) == f"len({head}.input_str)"
-        )
-        r.need(ok, f"default_error_recovery: loop condition has an unknown form {unparse(t)}")
-        r.check(
-            isinstance(t.ops[0], ast.Lt),
-            "scan bounded by position < len(input)",
-            "default_error_recovery:bound",
-            f"the recovery scan runs while `{unparse(t)}`: with `!=` a strategy that moved the position "
-            "past the end never terminates; with `<=` recognisers are called past the end",
-            node=loop,
-        )
-        g = cfgmod.build_region(loop.body)
+        g = cfgmod.build_func(f)
         incs = [
             n for n in g.nodes
             if n.kind == "stmt" and isinstance(n.ast, ast.AugAssign) and unparse(n.ast.target) == f"{head}.position"
             and isinstance(n.ast.op, ast.Add) and unparse(n.ast.value) == "1"
         ]
         r.floor("position increments in the recovery scan", len(incs), 1)
-        rets_true = [
-            n for n in g.nodes
-            if n.kind == "stmt" and isinstance(n.ast, ast.Return) and isinstance(n.ast.value, ast.Constant) and n.ast.value.value is True
+        other_moves = [
+            n for n in g.nodes if n.kind == "stmt" and n not in incs and isinstance(n.ast, (ast.Assign, ast.AugAssign))
+            and any(unparse(t) == f"{head}.position" for t in (n.ast.targets if isinstance(n.ast, ast.Assign) else [n.ast.target]))
         ]
+        r.check(not other_moves, "the position only moves forward by one", "default_error_recovery:moves",
+                f"default_error_recovery also moves the position with `{unparse(other_moves[0].ast)[:60] if other_moves else ''}`",
+                node=other_moves[0].ast if other_moves else None)
+        rets = [n for n in g.nodes if n.kind == "stmt" and isinstance(n.ast, ast.Return)]
+        rets_true = [n for n in rets if isinstance(n.ast.value, ast.Constant) and n.ast.value.value is True]
+        rets_false = [n for n in rets if isinstance(n.ast.value, ast.Constant) and n.ast.value.value is False]
         r.floor("success returns", len(rets_true), 1)
         fetch = [n for n, c in g.nodes_calling("_next_token")] + [n for n, c in g.nodes_calling("_next_tokens")]
         r.floor("token fetches in the recovery scan", len(fetch), 1)
+        # bound: the position is advanced only while it is before the end
+        bound_ok = {(f"{head}.position < len({head}.input_str)", "T"), (f"{head}.position >= len({head}.input_str)", "F"),
+                    (f"len({head}.input_str) > {head}.position", "T"), (f"len({head}.input_str) <= {head}.position", "F")}
+        for n in incs:
+            dom = g.dominating_tests(n)
+            r.check(
+                bool(dom & bound_ok),
+                "scan bounded by position < len(input)",
+                "default_error_recovery:bound",
+                f"the position is advanced under the guard {sorted(dom)}: it is not bounded by `position < len(input)` "
+                "(with `!=` a strategy that moved the position past the end never terminates; with `<=` recognisers "
+                "are called past the end)",
+                node=n.ast,
+            )
+        # every cycle advances the position
+        alive = [n for n in g.nodes if n not in incs]
+        color = {}
+
+        def cyclic(n):
+            color[n] = 1
+            for _, m in n.succ:
+                if m in incs:
+                    continue
+                if color.get(m) == 1:
+                    return True
+                if m not in color and cyclic(m):
+                    return True
+            color[n] = 2
+            return False
+
+        has_cycle = any(cyclic(n) for n in alive if n not in color)
+        r.check(
+            not has_cycle,
+            "every iteration of the scan advances the position",
+            "default_error_recovery:cycle",
+            "default_error_recovery has a loop path that does not advance the position: the scan can spin forever",
+            node=f.node,
+        )
         for n in rets_true:
             r.check(
                 g.dominated_by_nodes(n, incs),
@@ -88,10 +116,10 @@ def rule_progress(rep):
                 "the recovery scan looks for a token before advancing: it finds the offending position again",
                 node=n.ast,
             )
-        # after the loop: return False
-        after = f.body[f.body.index(loop) + 1:]
+        # every other way out says False
+        falls = g.exit in g.reach([g.entry], avoid_nodes=rets)
         r.check(
-            len(after) == 1 and isinstance(after[0], ast.Return) and unparse(after[0].value) == "False",
+            bool(rets_false) and not falls and len(rets) == len(rets_true) + len(rets_false),
             "exhausted input -> False",
             "default_error_recovery:exhausted",
             "default_error_recovery does not return False when the input is exhausted",
@@ -349,3 +377,7 @@ def check(rep):
     rule_span_end(rep)
     rule_gated(rep)
     rule_token_length(rep)
+    from .C10 import rule_errors_are_syntax_errors
+
+    # recovery works on the heads snapshotted for this frontier and on the errors built from them
+    rule_errors_are_syntax_errors(rep)
